@@ -15,6 +15,14 @@ res = {}
 try:
     res["demo_without"] = run(f"/venv/bin/python {src}/demo.py", cwd=wt, env=env).returncode
     ap = run(f"git apply {src}/patch.diff", cwd=wt)
+    if ap.returncode != 0:
+        # /repo has moved since the change was written (later fix: commits): fall back to fuzzy application and
+        # keep the re-based diff
+        ap = run(f"patch -p1 -F3 --no-backup-if-mismatch < {src}/patch.diff", cwd=wt)
+        if ap.returncode == 0:
+            rebased = run("git diff", cwd=wt).stdout
+            open(os.path.join(src, "patch.diff"), "w").write(rebased)
+            res["patch_rebased"] = True
     res["patch_applies"] = ap.returncode == 0
     if ap.returncode == 0:
         d = run(f"/venv/bin/python {src}/demo.py", cwd=wt, env=env)
